@@ -146,6 +146,13 @@ Theorem c04_path_last_node :
 Proof. exact p_last_node_is_end. Qed.
 Print Assumptions c04_path_last_node.
 
+(* Path::first_node is the node the path starts at: the source of the first edge, the first element of iter_nodes (with c04_bfs_sound: the root) *)
+Theorem c04_path_first_node :
+  forall (E : Type) (p : list (edge E)) (e : edge E),
+       p_first_node (e :: p) = Some (esrc e) /\ hd_error (p_iter_nodes (e :: p)) = p_first_node (e :: p).
+Proof. exact p_first_node_is_start. Qed.
+Print Assumptions c04_path_first_node.
+
 
 Example c04_nonvacuous :
   let ops : list (op nat nat nat) :=
